@@ -235,6 +235,12 @@ fn run_one(sh: &Shared, scn: usize, seed: u64, devs: &[Deviation], local: &mut S
     let n = sh.execs.fetch_add(1, Ordering::Relaxed);
     let s = &*sh.scns[scn];
     let (out, verdict) = execute(s, devs, seed);
+    if out.ending == Ending::Diverged {
+        // a prefix that cannot be replayed is a machinery error; the execution is never judged
+        local.machinery_errors.push(format!("replay divergence in scenario {} devs {:?}: {}", s.id(), devs, out.divergence.clone().unwrap_or_default()));
+        sh.stop.store(true, Ordering::Relaxed);
+        return None;
+    }
     record(sh, s, seed, devs, &out, &verdict, local);
     let check_det = (sh.params.determinism_every > 0 && n % sh.params.determinism_every == 0)
         || verdict.findings.iter().any(|f| f.prop == sh.prop);
